@@ -125,6 +125,10 @@ def build_avp(a, byname, variant=0):
         if variant % 3 == 2 and len(members) > 1:
             g = d.cls(members[:1])
             for m in members[1:]:
+                # the AVP is serialised and measured while it grows: what was read once must not be remembered past a change
+                g.dump()
+                len(g)
+                g.get_length()
                 g.append(m)
             return g
         return d.cls(members)
@@ -201,6 +205,24 @@ def build_avp_gs(a, byname, variant=0):
         g.append(extra)
         g.pop(key_of(g, extra))
     return g
+
+
+def build_msg_replace(m, byname, variant=0):
+    """the content replaces an earlier one in which every name occurs several times: first through the avps setter, then (odd
+    variants) through cleanup() followed by extend()"""
+    from bromelia.base import DiameterMessage
+    base = build_msg({"h": m["h"], "avps": []}, byname, variant)
+    prior = [build_avp(a, byname, variant) for a in m["avps"]] + [build_avp(a, byname, variant + 1) for a in m["avps"]] + \
+            [build_avp(a, byname, variant) for a in m["avps"][:1]]
+    msg = DiameterMessage(base.header, prior)
+    msg.dump()
+    avps = [build_avp(a, byname, variant) for a in m["avps"]]
+    if variant % 2:
+        msg.cleanup()
+        msg.extend(avps)
+    else:
+        msg.avps = avps
+    return msg
 
 
 def build_msg_gs(m, byname, variant=0):
